@@ -18,9 +18,11 @@ RULE = ("fixtures (plain folder with nested sub-folder, a 70 kB file and names s
         "states (tree digests)")
 
 START, END = "autocopy_start.txt", "autocopy_end.txt"
-FILES = {"a.txt": b"alpha\n", "z.bin": bytes(range(200)), "sub/inner.txt": b"inner file\n", "big.bin": bytes([7]) * 70000}
-ZIP_SPLIT = {"batch_0.zip": ["a.txt", "sub/inner.txt"], "batch_1.zip": ["z.bin", "big.bin"]}
-ZIP_SPLIT3 = {"batch_0.zip": ["a.txt"], "batch_1.zip": ["sub/inner.txt", "z.bin"], "batch_2.zip": ["big.bin"]}
+# names: sorting before / after the markers, nested, and legal-but-unusual ones (consecutive dots, a leading dot with a space)
+FILES = {"a.txt": b"alpha\n", "z.bin": bytes(range(200)), "sub/inner.txt": b"inner file\n", "big.bin": bytes([7]) * 70000,
+         "take..2.wav": b"two dots\n", "sub/.hidden name.txt": b"dot file\n"}
+ZIP_SPLIT = {"batch_0.zip": ["a.txt", "sub/inner.txt", "take..2.wav"], "batch_1.zip": ["z.bin", "big.bin", "sub/.hidden name.txt"]}
+ZIP_SPLIT3 = {"batch_0.zip": ["a.txt", "sub/.hidden name.txt"], "batch_1.zip": ["sub/inner.txt", "z.bin"], "batch_2.zip": ["big.bin", "take..2.wav"]}
 
 
 def write_tree(root, t):
